@@ -281,6 +281,54 @@ def run(ctx):
           enclosing(x, ('IfStmt',)) is not None and enclosing(x, ('IfStmt',)) is not main_if]
     ctx.check(ht in ([ord('?')], [b'?']), R, 'hex|mask-toggle', h_loop, 'mask change is rendered as ? between bytes', 'mask toggle in the hex form is %s' % ht)
 
+    # mask classification in the formatter: a mask byte is read only for its truth value, a toggle is
+    # emitted exactly when that truth value differs from a state variable which is flipped with the
+    # toggle, and the state starts where the parser's starts (enabled)
+    R = 'C09-R2'
+    mask_v = next((v for v in walk(body_of(F)) if v.get('kind') == 'VarDecl' and v.get('name') == 'mask'), None) if 'F' in dir() else None
+    fbody = body_of(fmts[0])
+    mask_vars = [v for v in walk(fbody) if v.get('kind') == 'VarDecl' and kids(v) and any((ref_decl(y) or {}).get('id') == params_of(fmts[0])[2]['id'] for y in walk(v))]
+    ctx.require(len(mask_vars) == 1, 'format_data_string: typed mask pointer not found')
+    mv = mask_vars[0]
+    reads = [x for x in walk(fbody) if x.get('kind') == 'ArraySubscriptExpr' and (ref_decl(x['inner'][0]) or {}).get('id') == mv['id']]
+    ctx.require(len(reads) >= 2, 'format_data_string: mask reads not found')
+    for i, rd_ in enumerate(reads):
+        p_ = rd_.get('_p')
+        truth = False
+        while p_ is not None and p_.get('kind') in ('ParenExpr', 'ImplicitCastExpr', 'CStyleCastExpr', 'CXXStaticCastExpr', 'CXXFunctionalCastExpr'):
+            if p_.get('castKind') == 'IntegralToBoolean' or (dtype(p_) or '') == 'bool':
+                truth = True
+                break
+            p_ = p_.get('_p')
+        if not truth and p_ is not None:
+            if p_.get('kind') == 'UnaryOperator' and p_.get('opcode') == '!':
+                truth = True
+            r_ = relation(p_, True) if p_.get('kind') == 'BinaryOperator' else None
+            if r_ and r_[1] in ('==', '!=') and (int_value(r_[2]) == 0 or int_value(r_[0]) == 0):
+                truth = True
+        form = 'quoted' if any(a is q_loop for a in ancestors(rd_)) else 'hex'
+        ctx.check(truth, R, '%s|mask-read-as-truth#%d' % (form, i), rd_, 'mask byte used only as zero / non-zero', 'the mask byte is compared by value (`%s`): masks whose non-zero bytes differ (0x01 vs 0xFF) are classified wrongly when re-parsed' % src_text(rd_.get('_p') or rd_, 60))
+    for form, lp in (('quoted', q_loop), ('hex', h_loop)):
+        emits = [x for x in walk(loop_body(lp)) if x.get('kind') == 'CXXOperatorCallExpr' and call_name(x) == 'operator+=' and (string_lit(x['inner'][2]) in (b'"?"', b'?') or int_value(x['inner'][2]) == ord('?'))]
+        okt = len(emits) == 1
+        why = 'expected one toggle emission, found %d' % len(emits)
+        if okt:
+            ifs = enclosing(emits[0], ('IfStmt',))
+            cond, then, els = if_parts(ifs)
+            flips = [a for a in walk(then) if a.get('kind') == 'BinaryOperator' and a.get('opcode') == '=' and strip(a['inner'][1]).get('kind') == 'UnaryOperator' and strip(a['inner'][1]).get('opcode') == '!'
+                     and (ref_decl(strip(a['inner'][1])['inner'][0]) or {}).get('id') == (ref_decl(a['inner'][0]) or {}).get('id')]
+            okt = len(flips) == 1
+            why = 'the toggle is emitted without flipping a mask state variable'
+            if okt:
+                st = ref_decl(flips[0]['inner'][0])
+                in_cond = any((ref_decl(y) or {}).get('id') == st['id'] for y in walk(cond)) and any(y in reads for y in walk(cond))
+                neq = any(y.get('kind') == 'BinaryOperator' and y.get('opcode') == '!=' for y in walk(cond))
+                svd = u.by_id.get(st['id'])
+                init_true = svd is not None and kids(svd) and int_value(kids(svd)[-1]) == 1
+                okt = in_cond and neq and init_true
+                why = 'toggle condition does not compare the mask byte\'s truth value with the state (`%s`), or the state does not start enabled' % src_text(cond, 70)
+        ctx.check(okt, R, form + '|toggle-iff-state-differs', emits[0] if emits else lp, 'toggle emitted iff bool(mask[x]) != state; state flipped with it; starts enabled', why)
+
     # ---- R3 totality
     R = 'C09-R3'
     adv_sites = [x for x in walk(loop_body(main_loop)) if (x.get('kind') == 'UnaryOperator' and x.get('opcode') == '++' and canon(x['inner'][0]) == 'in') or
@@ -512,6 +560,49 @@ def run(ctx):
             r = relation(while_parts(wl)[0], True)
             okw = okw and r is not None and r[1] == '>=' and 'iov_len' in canon(r[2])
     ctx.check(okw, R, 'iovec-cursor|while', advs[0] if advs else D, 'exhausted (or empty) iovecs are skipped with `while (bytes >= iov_len)`', 'iovec cursors do not skip consecutive empty iovecs: the output depends on how the data is split')
+    # cursor / array affinity: each iovec array is walked by its own (index, byte offset) pair; the
+    # line buffers are filled from the matching array
+    iov_params = [p_ for p_ in params_of(D) if 'iovec' in (qtype(p_) or '')]
+    ctx.require(len(iov_params) == 2, 'format_data: the two iovec array parameters were not found')
+    use = {}
+    for x in walk(dbody):
+        if x.get('kind') == 'ArraySubscriptExpr':
+            base = ref_decl(x['inner'][0])
+            if base and base.get('id') in {p_['id'] for p_ in iov_params}:
+                idxs = sorted({(ref_decl(y) or {}).get('name') for y in walk(x['inner'][1]) if y.get('kind') == 'DeclRefExpr' and (ref_decl(y) or {}).get('kind') == 'VarDecl'})
+                # the byte cursor compared with / added to this element in the same statement
+                st_ = containing_statement(x)
+                use.setdefault(base.get('name'), []).append((tuple(idxs), x))
+    cursors = {}
+    for arr, lst in use.items():
+        for idxs, x in lst:
+            for i in idxs:
+                cursors.setdefault(i, set()).add(arr)
+    persistent = {canon(a['inner'][0]) for a in advs}
+    ctx.require(len(persistent & set(cursors)) == 2, 'format_data: the two persistent iovec cursors were not found')
+    for cvar, arrs in sorted(cursors.items()):
+        if cvar not in persistent:
+            continue   # plain loop counters (e.g. summing the lengths) may visit both arrays
+        bad_x = next((x for arr in arrs for idxs, x in use[arr] if cvar in idxs), None)
+        ctx.check(len(arrs) == 1, R, 'iovec-cursor|single-array|' + str(cvar), bad_x or D, 'cursor %s walks %s only' % (cvar, sorted(arrs)), 'cursor `%s` indexes both %s' % (cvar, sorted(arrs)))
+    # within one statement an element of array A is combined only with A's own byte cursor
+    byte_cur = {}
+    for wl in [x for x in walk(dbody) if x.get('kind') == 'WhileStmt']:
+        r = relation(while_parts(wl)[0], True)
+        if r and r[1] == '>=' and 'iov_len' in canon(r[2]) and ref_decl(r[0]):
+            arr = next(((ref_decl(y['inner'][0]) or {}).get('name') for y in walk(r[2]) if y.get('kind') == 'ArraySubscriptExpr'), None)
+            if arr:
+                byte_cur[ref_decl(r[0]).get('name')] = arr
+    for x in walk(dbody):
+        if x.get('kind') == 'ArraySubscriptExpr' and (ref_decl(x['inner'][0]) or {}).get('name') in use:
+            arr = ref_decl(x['inner'][0]).get('name')
+            st_ = containing_statement(x)
+            if st_ is None or st_.get('kind') in ('WhileStmt', 'ForStmt', 'IfStmt', 'CompoundStmt'):
+                continue
+            others = {(ref_decl(y) or {}).get('name') for y in walk(st_) if y.get('kind') == 'DeclRefExpr'} & set(byte_cur)
+            wrong = [o for o in others if byte_cur[o] != arr]
+            if others:
+                ctx.check(not wrong, R, 'iovec-cursor|byte-offset|%s@%s' % (arr, st_.get('_line')), x, '%s element used with its own byte cursor' % arr, '%s[] element combined with the byte cursor %s of the other buffer' % (arr, wrong))
     hexf = [string_lit(call_args(c)[0]) for c in walk(dbody) if c.get('kind') == 'CallExpr' and call_name(c) == 'string_printf' and string_lit(call_args(c)[0]) in (b' %02hhX', b' %02X')]
     ctx.check(len(hexf) == 1, R, 'hex-column', D, 'each byte is printed as " %02X"', 'hex column format changed')
     asc = [x for x in walk(dbody) if x.get('kind') == 'IfStmt' and nf(if_parts(x)[0]) in ('((current_value < 32) || (127 <= current_value))', '((current_value < 32) || (current_value >= 127))')]
